@@ -287,12 +287,13 @@ MODULE_NAMES = ["a", "b", "c"]
 
 
 class StepInfo:
-    __slots__ = ("new_real", "old_backrefs", "retargeted", "new_node")
+    __slots__ = ("new_real", "old_backrefs", "old_backref_map", "retargeted", "new_node")
 
     def __init__(self) -> None:
         self.new_real = None
         self.new_node = None
         self.old_backrefs: list = []
+        self.old_backref_map: dict = {}
         self.retargeted: list = []
 
 
@@ -439,7 +440,8 @@ class World:
         old = cont_members.get(name) if expect == "ok" else None
         old_real = self.real[old.uid] if old is not None else None
         if old is not None and old.kind != "alias" and crossed is None:
-            info.old_backrefs = list(old_real.aliases.values())
+            info.old_backref_map = dict(old_real.aliases)
+            info.old_backrefs = list(info.old_backref_map.values())
         try:
             if api == "set_member":
                 recv_real.set_member(self.keyobj(key), value)
@@ -523,6 +525,15 @@ class World:
                 continue
             ral = self.real[al.uid]
             if ral._target is not info.new_real:
+                listed = info.old_backref_map.get(ral.path)
+                if listed is not None and listed is not ral and listed.is_alias and not self.is_attached(listed):
+                    # consequence of the displaced back-reference: the replaced object no longer listed this (live) alias,
+                    # its slot was held by the detached alias that used to live at the same path
+                    if not any(k[0] == F_STALE for k in self.known):
+                        self.known.append((F_STALE, f"alias {al.path()} pointed at {dest} but was not listed in its aliases (slot held by a detached alias "
+                                                    "of the same path), so it did not follow the set_member replacement", repr(ral._target), repr(info.new_real)))
+                    self.bind(al, old)
+                    continue
                 raise Violation(f"alias {al.path()} pointed at {dest}, replaced through set_member, but did not follow the replacement",
                                 repr(ral._target), repr(info.new_real))
             self.rec.count("aliased_replacements_followed")
